@@ -37,7 +37,7 @@ def docs(level, tier, rep=None, cfg=None, wrapname="Wrap2"):
         rep.tlc(f"DocGen[{cfg}]", r)
     alpha = alphabet(level)
     wrap = alphabet(wrapname)
-    sep = "\n" if level == "L1" else ""
+    sep = "\n" if level in ("L1", "L3") else ""
     out = []
     for line in r.out.splitlines():
         if line.startswith('"{'):
@@ -81,6 +81,13 @@ def emphasis_sentences(rep=None):
     if len(out) < 30000:
         raise C.MachineryError(f"EmphGen exported only {len(out)} sentences")
     return sorted(out)
+
+
+def l3_docs():
+    """One- and two-line documents over the product line shapes L3 (Alphabets.tla: container prefix x leaf). The
+    shapes come from the specification; the pairs are enumerated here (TLC needs minutes to print 640 k strings)."""
+    shapes = alphabet("L3")
+    return list(shapes) + [a + "\n" + b for a in shapes for b in shapes]
 
 
 def sample(items, n, seed, keep_short=0):
